@@ -247,6 +247,9 @@ def main(tier: str) -> int:
         counts = producer.denoting_per_frame(frames)
         for integ in (("generic", "rdflib") if uni.startswith("r11") else ("generic",)):
             full, exc = drain(integ, data)
+            if exc is not None:
+                run.violation({"side": "read", "clause": "complete-stream-does-not-parse", "integ": integ}, f"{uni}: {exc}", {"stream": uni})
+                continue
             mod = __import__(f"pyjelly.integrations.{integ}.parse", fromlist=["parse_jelly_flat"])
             conv = terms.item_from_generic if integ == "generic" else terms.item_from_rdflib
             for j, end in enumerate(ends, start=1):
